@@ -339,7 +339,9 @@ def get_item(I, o, k):
             if not I.p.branch(has, "dict-key-present"):
                 raise PyRaise(KeyError("<symbolic key>"))
             _used("dict.__getitem__")
-            return SV(V.dget(V.vd(t), kt, V.ABSENT))
+            r = V.dlookup(V.vd(t), kt)
+            dict_lookup_lemma(I, V.vd(t), kt, r)
+            return SV(r)
         if entailed(I, z3.Or(V.is_VList(t), V.is_VTuple(t))):
             seq = z3.If(V.is_VList(t), V.vl(t), V.vt(t))
             if isinstance(k, int) and k >= 0:
@@ -366,6 +368,17 @@ def get_item(I, o, k):
     if isinstance(o, Obj):
         raise Unsupported(f"subscript on object {o.cls.__name__}")
     raise Unsupported(f"subscript on {type(o).__name__} with symbolic key")
+
+
+def dict_lookup_lemma(I, d_vl, k, value_term):
+    """instantiate the lookup lemma of every DictOf shape assumed for this association list"""
+    ents = I.ctx.__dict__.get("dict_value_shapes", {}).get(z3.simplify(d_vl).get_id())
+    if not ents:
+        return
+    for g, sh in ents:
+        I.p.assume(z3.Implies(z3.And(g, V.dhas(d_vl, k)), z3.And(sh.key.pred(k), sh.value.pred(value_term))))
+        from .shapes import _guarded_on_assume
+        _guarded_on_assume(I.ctx, sh.value, z3.simplify(value_term), z3.And(g, V.dhas(d_vl, k)))
 
 
 def splat_kwargs(I, kwargs, d):
@@ -474,7 +487,7 @@ def symbolic_comprehension(I, e, env, module):
     m = dict(ent)
     m["xs"] = xs
     MAPS[ent["name"]] = m
-    I.p.ctx.__dict__.setdefault("maps_used", {})[ent["name"]] = m
+    I.p.maps_used[ent["name"]] = m
     if is_dict:
         # keys of the result: distinct provided the key expression maps distinct source keys to distinct keys; the
         # code under contract only uses the identity on the source dict's keys (checked here)
@@ -518,6 +531,7 @@ def merged_eval(I, elem, xs, gen, elt_expr, env, module, site):
     any_skip = False
     for p, (kind, out) in outs:
         parent.obligations.extend(p.obligations)
+        parent.maps_used.update(p.maps_used)
         if kind == "abort":
             continue
         if kind == "unsupported":
@@ -622,6 +636,7 @@ def dict_method(I, t, name, args, kwargs):
     if name == "get":
         k = lower(args[0])
         default = lower(args[1]) if len(args) > 1 else V.VNone
+        dict_lookup_lemma(I, d, k, V.dlookup(d, k))
         return SV(V.dget(d, k, default))
     if name == "copy":
         return MDict(t)
